@@ -2480,6 +2480,11 @@ impl TieredEngine {
             loop {
                 tokio::select! {
                     _ = ticker.tick() => {
+                        // Periodic fsync policy: writes acknowledged before an idle period
+                        // must become durable within one flush interval.
+                        if let Err(e) = self.cold_tier.sync_wal_if_unsynced() {
+                            error!(error = %e, "Periodic WAL fsync failed");
+                        }
                         self.audit_hot_tier_coherence_if_due("background hot-tier coherence audit");
                         if self.hot_tier.needs_flush() {
                             match self.flush_hot_tier(false) {
